@@ -30,6 +30,8 @@ def one(sd: pathlib.Path):
     if not isinstance(listed, dict) or not all(k.startswith("C") and len(k) == 3 for k in listed):
         return sd.name, "skipped (special meta)", {}
     want = sorted(set(listed) | {meta["property"]})
+    if "--own-only" in sys.argv:
+        want = [meta["property"]]
     tmp = pathlib.Path(tempfile.mkdtemp(prefix="gsv-reg-", dir="/var/tmp"))
     try:
         rc, o = sh(f"git -C /repo worktree add -q --detach {tmp}/wt HEAD")
